@@ -39,6 +39,25 @@ def reread_check(ctx, r, case, where):
                 return
 
 
+def order_check(ctx, r, case, where, seed):
+    """every stored line evaluated once more on the final stores, in descending order of names and in an order
+    shuffled from `seed` (a drawn integer): a definition whose result depends on what was evaluated before it
+    (a memo, a cache, a "last row" hint) is not a function of the values it reads"""
+    import random
+    s = r.solver
+    names = sorted(n for n in r.values if n in s._field_map)
+    shuffled = list(names)
+    random.Random(seed).shuffle(shuffled)
+    for label, order in (('descending', names[::-1]), ('shuffled', shuffled)):
+        for name in order:
+            out, val, _ = closure.eval_line(s._field_map[name], s._i, s._v)
+            if out != 'value' or not closure.same_value(val, r.values[name]):
+                ctx.violation(f'{where}:order-dependent:{name.split(".")[0].split(":")[0]}.{name.split(".")[1]}',
+                              f'{name} is stored as {r.values[name]!r}; evaluated again on the same final stores in {label} order its definition gives {out} {val!r}', case)
+                return
+    ctx.count('order_check_lines', 2 * len(names))
+
+
 def extra_prog(ctx, program, r, m, case):
     if r.exc is None:
         reread_check(ctx, r, case, 'prog')
@@ -47,10 +66,42 @@ def extra_prog(ctx, program, r, m, case):
 def shard_real(ctx, k, payload):
     n, seed = payload
 
+    previous = []     # the return solved just before this one in the same process
+
     def body(data):
         p = data.draw(scenario.personas())
-        sc, _ = scenario.build(p, data.draw)
-        v = realcamp.make_variant(data.draw, sc, KINDS)
+        edge = data.draw(st.integers(0, 3)) == 0
+        if edge:
+            p.update(n_div=max(1, p['n_div']), n_w2=max(1, p['n_w2']))
+        sc, r_ = scenario.build(p, data.draw)
+        if edge and r_.exc is None and r_.verdict and 'w-2:0.box_1' in sc['inputs'] and '1099-div:0.box_1a' in sc['inputs']:
+            # table-edge return: a few dollars of qualified dividends and a taxable income exactly on the edge of a
+            # Tax Table row, so that two lookups of one return fall into neighbouring rows (any state a lookup leaves
+            # behind then shows as a stored value that its definition does not reproduce)
+            q = data.draw(st.sampled_from(['1.00', '20.00', '49.00', '50.00']))
+            cur = dict(sc['inputs'], **{'1099-div:0.box_1a': q, '1099-div:0.box_1b': q})
+            for k_ in list(cur):
+                if k_.startswith('1099-div:') and k_.endswith(('.box_2a',)) or (k_.startswith('1099-div:') and not k_.startswith('1099-div:0.') and k_.endswith(('.box_1a', '.box_1b'))):
+                    cur[k_] = '0'
+            target = None
+            pol = scenario.Policy(p, data.draw)
+            for _ in range(3):
+                rr = scenario.resolve({'year': sc['year'], 'forms': sc['forms'], 'inputs': cur}, answer_fn=lambda inp, nb: pol.answer(inp), want_solution=False)
+                cur = solve.config_to_dict(rr.store.config)      # with the answers the changed return needed
+                if rr.exc is not None or not rr.verdict or not isinstance(rr.values.get('1040.15'), float):
+                    break
+                t15 = rr.values['1040.15']
+                if target is None:
+                    target = (int(t15 // 50) + data.draw(st.integers(0, 2))) * 50.0
+                if t15 == target:
+                    sc = dict(sc, inputs=cur)
+                    ctx.count('real:table_edge_returns')
+                    break
+                nw = round(float(cur['w-2:0.box_1'].strip() or 0) + (target - t15), 2)
+                if nw < 0:
+                    break
+                cur['w-2:0.box_1'] = f'{nw:.2f}'
+        v = realcamp.make_variant(data.draw, sc, KINDS if not edge else ['full'])
         v['schedule'] = {'seed': data.draw(st.integers(0, 2 ** 32)),
                          'mode': data.draw(st.sampled_from(['random', 'random', 'reverse', 'identity']))}
         r = realcamp.run_variant(v)
@@ -60,6 +111,16 @@ def shard_real(ctx, k, payload):
             ctx.count('real:' + l)
         if r.exc is None:
             reread_check(ctx, r, {'variant': v}, 'real')
+            case_o = {'variant': v, 'order_seed': v['schedule']['seed']}
+            if previous:
+                # another, unrelated return is solved in between: whatever a definition keeps outside the stores
+                # (module-level memo, last-row hint) is moved before the lines are evaluated again
+                realcamp.run_variant(previous[-1])
+                case_o['solved_in_between'] = previous[-1]
+                ctx.count('order_check_with_unrelated_solve_in_between')
+            order_check(ctx, r, case_o, 'real', v['schedule']['seed'])
+            if v['prompt'] is None:
+                previous[:] = [dict(v, schedule=None)]
             waited = sum(1 for name, nn in r.trace.attempt_counts().items() if nn >= 2 and name in r.values)
             ctx.count('stored_lines_rechecked', len(r.values))
             ctx.count('stored_lines_that_waited', waited)
@@ -104,3 +165,6 @@ def replay(ctx, case):
     realcamp.check_variant(ctx, ['C03'], v, r)
     if r.exc is None:
         reread_check(ctx, r, case, 'real')
+        if case.get('solved_in_between'):
+            realcamp.run_variant(case['solved_in_between'])
+        order_check(ctx, r, case, 'real', case.get('order_seed', 0))
